@@ -300,8 +300,8 @@ def eval_exact(ctx, cases, label):
         key = f"V={V}"
         res.hist_rank[key] = res.hist_rank.get(key, 0) + 1
         if nontriv:
-          res.sample({"case": c, "V": V, "rank": c["rank"], "common_denominator_bits": D.bit_length(),
-                      "chern_marker_over_4pi_exact": [str(x) for x in exact_marker(P, fx, fy)][:4]})
+            res.sample({"case": c, "V": V, "rank": c["rank"], "common_denominator_bits": D.bit_length(),
+                        "chern_marker_over_4pi_exact": [str(x) for x in exact_marker(P, fx, fy)][:4]})
     res.extra["exactK_V_histogram"] = getattr(res, "hist_rank", {})
 
 
